@@ -286,7 +286,8 @@ def _history(ctx, I, dotted, saved, out):
                 def rerun(I_, a2=a2, k2=k2):
                     _restore_state(I.program, state)
                     return I_.call(public(ctx, I_, dotted), tuple(_copy_args(a2)), dict(_copy_args(k2)))
-                explore_exits(ctx, rule, tag, I2, 0, lambda: _like(I), rerun, expected, loc, what="result of the second call")
+                explore_exits(ctx, rule, tag, I2, 0, lambda: _like(I), rerun, expected, loc, what="result of the second call",
+                              skip={gl_ for _, gl_, _ in I.exit_ids})
                 _restore_state(I.program, after)
         except RaiseSig as r:
             ctx.ob(rule, tag, False, f"the second call raises {r.exc.typename}", loc)
@@ -342,16 +343,17 @@ def _zero_terms(X, out):
                     out[b] = ZERO
                 elif isinstance(inner, E):
                     # |c1*s + c0| squeezed to 0 for a single symbol s: s = -c0/c1
-                    syms = [x for x in alg.atoms_of(inner) if x.kind in ("sym", "psym")]
-                    lin = None
-                    if len(syms) == 1 and len(alg.atoms_of(inner)) == 1:
-                        c1 = alg.derive(inner, {syms[0]: ONE})
-                        c0 = alg.subst(inner, {syms[0]: ZERO})
-                        if c1.is_const() and c1.cval() != 0 and c0.is_const():
-                            lin = lift(-c0.cval() / c1.cval())
-                    if lin is not None:
-                        out[syms[0]] = lin
-                    else:
+                    # |c1*s + rest| squeezed to 0 with s a symbol that occurs linearly with a constant coefficient and not in rest: s = -rest/c1
+                    syms = sorted((x for x in alg.atoms_of(inner) if x.kind in ("sym", "psym") and x not in out), key=lambda a_: a_.id)
+                    done = False
+                    for s_ in syms:
+                        c1 = alg.derive(inner, {s_: ONE})
+                        rest = alg.subst(inner, {s_: ZERO})
+                        if c1.is_const() and c1.cval() != 0 and s_ not in alg.atoms_of(rest, deep=True):
+                            out[s_] = rest * lift(-1 / c1.cval())
+                            done = True
+                            break
+                    if not done:
                         ok = False
                 else:
                     ok = False
@@ -371,6 +373,19 @@ def _zero_terms(X, out):
 
 
 TOL = alg.Fr(1, 10 ** 6)
+
+
+def _is_tolerance(e):
+    """a tolerance: a constant in [0, 1e-6], plus at most small multiples (<= 1e-4) of moduli (np.isclose: atol + rtol*|b|)"""
+    e = lift(e)
+    for m, c in e.t.items():
+        if not m:
+            if not (0 <= c <= TOL):
+                return False
+        else:
+            if not (0 <= c <= alg.Fr(1, 10 ** 4)) or not all(a.kind == "abs" and isinstance(x, int) and x >= 1 for a, x in m):
+                return False
+    return True
 
 
 def guard_substitution(g):
@@ -411,9 +426,9 @@ def guard_substitution(g):
             if not truth:
                 op = {"Lt": "GtE", "LtE": "Gt", "Gt": "LtE", "GtE": "Lt", "Eq": "NotEq", "NotEq": "Eq"}[op]
             small, big = None, None
-            if op in ("Lt", "LtE") and y.is_const() and 0 <= y.cval() <= TOL:
+            if op in ("Lt", "LtE") and _is_tolerance(y):
                 small = x
-            elif op in ("Gt", "GtE") and x.is_const() and 0 <= x.cval() <= TOL:
+            elif op in ("Gt", "GtE") and _is_tolerance(x):
                 small = y
             elif op == "Eq" and y.is_const() and y.cval() == 0:
                 small = x          # a sum of squares / moduli that is exactly zero
@@ -482,7 +497,7 @@ def _flat_cells(v):
     return [v]
 
 
-def explore_exits(ctx, rule, construct, generic, g0, new_interp, call, ref, loc, cases=None, limit=12, what="result"):
+def explore_exits(ctx, rule, construct, generic, g0, new_interp, call, ref, loc, cases=None, limit=12, what="result", skip=None):
     """The reference that the generic path of a public function is held to must also hold on each of its data-dependent early-exit paths.
     The function is re-interpreted once per early exit met on the generic path (its own or a helper's), with that ONE exit taken instead of
     skipped, and the final result is compared with the reference after substituting what the exit condition says about the inputs
@@ -496,7 +511,7 @@ def explore_exits(ctx, rule, construct, generic, g0, new_interp, call, ref, loc,
         if gi < g0 or gi >= len(generic.guards):
             continue
         g_, outcome_, _, _ = generic.guards[gi]
-        if outcome_[0] == "raise":
+        if outcome_[0] == "raise" or (skip and gl0 in skip):
             continue
         if guard_substitution(g_):
             todo.append((gl0, occ))
